@@ -283,7 +283,7 @@ impl SrtpKeyingMaterial {
                         // key and salt
                         take_while1(is_base64_char),
                         // lifetime
-                        opt(map(
+                        opt(map_res(
                             terminated(
                                 preceded(char('|'), tuple((opt(tag("2^")), number))),
                                 // Do not parse the mki here by mistake
@@ -291,9 +291,10 @@ impl SrtpKeyingMaterial {
                             ),
                             |(exp, n)| {
                                 if exp.is_some() {
-                                    2u32.pow(n)
+                                    // the exponent comes from the peer, 2^32 and above do not fit
+                                    2u32.checked_pow(n).ok_or("lifetime out of range")
                                 } else {
-                                    n
+                                    Ok(n)
                                 }
                             },
                         )),
